@@ -145,7 +145,10 @@ def sig(b):
         # a call whose result no map operation explains: is it the result the model of the code predicted?
         pres = r.get("pres") or []
         oi = rec.get("oi", 0)
-        s["model"] = "asmodel" if 0 < oi <= len(pres) and pres[oi - 1] == _norm(rec.get("res")) else "notmodel"
+        obs = _norm(rec.get("res"))
+        if b.get("ev") == "Compact" and obs != "ok":
+            obs = "refused"             # compact() returning any error = the model's refusal
+        s["model"] = "asmodel" if 0 < oi <= len(pres) and pres[oi - 1] == obs else "notmodel"
     return s
 
 
@@ -163,9 +166,10 @@ def run(ctx, cases_override=None):
         # the implementation as it is now: remaining deviations exhibited, the rest refines MpqMap
         lambda: expect_violation(ctx, "MC_MpqHashTable_codeD", "Invariant ListfileExact is violated"),
         lambda: expect_violation(ctx, "MC_MpqHashTable_codeE", "Action property OpRefines is violated"),
-        lambda: expect_violation(ctx, "MC_MpqHashTable_codeF", "Action property AtomicRefines is violated"),
+        lambda: ctx.mc("MC_MpqHashTable", cfg="MC_MpqHashTable_codeF", timeout=900, workers=2,
+                       allow_uncovered=("InsertGiveUp", "CompactRefuse", "FlushV3Broken", "CloseV3Broken", "CompactV3", "AddRefuseFull")),
         lambda: ctx.mc("MC_MpqHashTable", cfg="MC_MpqHashTable_codeOK", timeout=900, workers=2,
-                       allow_uncovered=giveup + ("FlushV3Broken", "CloseV3Broken", "CompactV3")),
+                       allow_uncovered=giveup + ("FlushV3Broken", "CloseV3Broken", "CompactV3", "CompactRefuseUnreadable")),
     ]
     # stage A runs concurrently with generation, build and replay; it is joined before the verdict
     import concurrent.futures as cf
